@@ -645,7 +645,9 @@ fn render_child(
 {
     let child_path = field_ctx.0;
     let child_name = child_path.child_path[field_ctx.1].to_token_stream();
-    let ty = &child_data.ty;
+    // the path stands in expression position: generic arguments need the `::<..>` form there
+    let mut ty = child_data.ty.clone();
+    ty.segments.iter_mut().for_each(|s| if let syn::PathArguments::AngleBracketed(a) = &mut s.arguments { a.colon2_token = Some(Default::default()) });
     let init = struct_init_block_inner(fields, named_fields, ctx, Some((field_ctx.0, Some(child_data), field_ctx.1)));
     match (ctx.input.named_fields(), hint) {
         (true, TypeHint::Struct | TypeHint::Unspecified) => quote!(#child_name: #ty #init,),
